@@ -1,9 +1,57 @@
-(* C10 — placeholder until the refinement proof lands (see FS/RefineProofs.v). *)
-From Coq Require Import List NArith Bool.
-From PyFS Require Import Base.PyStr Base.Outcome FS.Tree FS.Ops FS.Ref FS.Agree FS.Mem.
+(* C10 — All query methods agree with each other in every state (MemoryFS model). *)
+From Coq Require Import List NArith ZArith Bool Arith.
+From PyFS Require Import Base.PyStr Base.Outcome Path.PathModel Path.PathSpec FS.Tree FS.Monad FS.Mode FS.Base
+     FS.Mem FS.Ops FS.Ref FS.Agree FS.Props FS.Wf FS.PropsProofs.
 Import ListNotations.
 
-Theorem C10_ref_makedir_example :
-  agree (mem_run (OMakedir [97%N] false) empty_dir) (ref_run (OMakedir [97%N] false) empty_dir) = true.
-Proof. reflexivity. Qed.
-Print Assumptions C10_ref_makedir_example.
+Theorem C10_mem_query_pure : forall p s,
+  fst (mem_getinfo p s) = s /\ fst (mem_listdir p s) = s /\ fst (mem_scandir p s) = s /\
+  fst (mem_exists p s) = s /\ fst (mem_isdir p s) = s /\ fst (mem_isfile p s) = s /\
+  fst (mem_isempty p s) = s /\ fst (mem_getsize p s) = s /\ fst (mem_gettype p s) = s /\
+  fst (mem_readbytes p s) = s /\ fst (mem_validatepath p s) = s.
+Proof. exact mem_query_pure. Qed.
+Print Assumptions C10_mem_query_pure.
+
+Theorem C10_q_exists : forall p s b d f,
+  mem_exists p s = (s, Ok b) -> mem_isdir p s = (s, Ok d) -> mem_isfile p s = (s, Ok f) ->
+  b = d || f /\ d && f = false.
+Proof. exact q_exists. Qed.
+Print Assumptions C10_q_exists.
+
+Theorem C10_q_listdir_scandir : forall p s names,
+  wf s -> mem_listdir p s = (s, Ok names) ->
+  exists infos, mem_scandir p s = (s, Ok infos) /\ names = map i_name infos /\ NoDup names.
+Proof. exact q_listdir_scandir. Qed.
+Print Assumptions C10_q_listdir_scandir.
+
+Theorem C10_q_scandir_listdir : forall p s infos,
+  mem_scandir p s = (s, Ok infos) -> mem_listdir p s = (s, Ok (map i_name infos)).
+Proof. exact q_scandir_listdir. Qed.
+Print Assumptions C10_q_scandir_listdir.
+
+Theorem C10_q_isempty : forall p s b,
+  mem_isempty p s = (s, Ok b) -> (b = true <-> mem_listdir p s = (s, Ok [])).
+Proof. exact q_isempty. Qed.
+Print Assumptions C10_q_isempty.
+
+Theorem C10_q_getsize : forall p s data,
+  mem_readbytes p s = (s, Ok data) ->
+  mem_getsize p s = (s, Ok (length data)) /\
+  exists i, mem_getinfo p s = (s, Ok i) /\ i_size i = length data /\ i_isdir i = false.
+Proof. exact q_getsize. Qed.
+Print Assumptions C10_q_getsize.
+
+Theorem C10_q_gettype : forall p s i,
+  mem_getinfo p s = (s, Ok i) ->
+  mem_gettype p s = (s, Ok (if i_isdir i then 1 else 2)) /\
+  mem_isdir p s = (s, Ok (i_isdir i)) /\
+  mem_isfile p s = (s, Ok (negb (i_isdir i))).
+Proof. exact q_gettype. Qed.
+Print Assumptions C10_q_gettype.
+
+Theorem C10_q_scandir_getinfo : forall p s infos cs,
+  wf s -> mem_scandir p s = (s, Ok infos) -> rpath p = inl cs ->
+  forall i, In i infos -> has_char Mem.nul (i_name i) = false ->
+  exists q, pjoin [to_path true cs; i_name i] = Ok q /\ mem_getinfo q s = (s, Ok i).
+Proof. exact q_scandir_getinfo. Qed.
+Print Assumptions C10_q_scandir_getinfo.
